@@ -56,6 +56,11 @@ CLAIMED = {
    note="Trusted: state-vector universe (gate semantics written from definitions), fake link with its own Bell-state numbering (published numbering), fidelity threshold 1-1e-9. Three recorded findings are masked in half of the runs.",
    technique="deterministic simulation: two-node network with scheduler-owned Bell states, outcomes and delivery order + state-vector oracle",
    ref="§5 C10"),
+ "C11": dict(
+   text="Seeded exploration: 1-3 calls through every public EPRSocket entry point with drawn arguments (type, pair count, time limit/unit, rotation triples, named bases, every RandomBasis member, sockets 0-3 to three remote nodes, both roles) on a real host + controller with ghost peers; every response field is drawn independently and pairwise distinct. Request oracle: the LinkLayerCreate reaching the recording network stack equals, field by field and type by type, what the API arguments imply, and request_to_qlink_1_0 accepts it. Response oracle: every result handle (Qubit.entanglement_info, EprKeepResult, EprMeasureResult, mapped physical qubit, remote node name) reads the field of the i-th response delivered for that request.",
+   note="Trusted: expected_request() table written from the EPRSocket documentation, recording stack (purpose id = socket id), fake link. Generic hardware config.",
+   technique="deterministic simulation: scheduler-owned response fields and delivery times + field-by-field boundary oracle",
+   ref="§5 C11"),
 }
 
 PENDING = {p: 'check not built yet in this round (simulation target per DESIGN §5; will be claimed when its rig exists)' for p in ['C05','C06','C08','C09','C10','C11','C12','C13','C14','C18','C20']}
